@@ -281,6 +281,32 @@ class Check:
             raise ToolError("toy model %s/%s violated an invariant (specification inconsistency):\n%s" % (module, cfg, r["out"][-3000:]))
         return r
 
+    # ---- Apalache (symbolic, full-size integers): optional extras; a run that does not finish is "not run", never a pass
+    def apalache(self, module, length, note, cinit=None, expect_violation=False, timeout=600):
+        wd = os.path.join(self.workdir, "apa_" + module + ("_" + cinit if cinit else ""))
+        cmd = ["timeout", str(timeout), "apalache-mc", "check", "--inv=Inv", "--length=%d" % length, "--out-dir=" + wd]
+        if cinit:
+            cmd.append("--cinit=" + cinit)
+        cmd.append(module + ".tla")
+        t0 = time.time()
+        r = subprocess.run(cmd, cwd=os.path.join(SPEC, "apalache"), stdout=subprocess.PIPE, stderr=subprocess.STDOUT, text=True)
+        out = r.stdout
+        if "EXITCODE: OK" in out:
+            res = "no error"
+        elif "EXITCODE: ERROR (12)" in out:
+            res = "counterexample"
+        else:
+            res = "not run"
+        self.cov.setdefault("apalache_runs", []).append(dict(module=module, cinit=cinit or "", length=length, result=res, expected="counterexample" if expect_violation else "no error",
+                                                            wall_s=round(time.time() - t0, 1), note=note))
+        if res == "not run":
+            return None
+        if (res == "counterexample") != expect_violation:
+            raise ToolError("Apalache obligation %s (%s): got '%s'\n%s" % (module, cinit, res, out[-1500:]))
+        self.states += 1
+        self.transitions += 1
+        return res
+
     # ---- trace validation
     def validate(self, traces, module="TraceAll", jobs=10, script_of=None, chunks=None):
         """traces: list of (label, trace_path). Validates in parallel; records mismatches as violations.
